@@ -22,6 +22,8 @@ def run(tier, seed):
     optsets = [("nes=%d" % n, "mem=%d" % m) for m in (0, 1, 2, 3) for n in (0, 1, 2)]
     # tasklet descriptors freed by an external thread, and live ones next to memory-pool stacks (tiny buckets)
     optsets += [("nes=%d" % n, "mem=%d" % m, "desc=1") for m in (2, 3) for n in (0, 1, 2)]
+    # stack guard pages (mprotect): a freed ULT leaves no protected page behind, also on user-supplied stacks
+    optsets += [("nes=%d" % n, "mem=%d" % m, "guard=%d" % g) for (m, g) in ((0, 1), (2, 1), (1, 2)) for n in (0, 1, 2)]
     vlib.history_check(chk, "d_mem", ["stacks"], "H_Alloc", quick, seed, nseeds_quick=100, nseeds_thorough=1500, optsets=optsets, free_runs=100,
                        what="stack ranges overlap / smaller than requested / misaligned / user stack not used as given / stack contents damaged / allocation ledger unbalanced",
                        env={"ABTV_BUDGET": "4000000"})
